@@ -296,10 +296,76 @@ func c15(r *vlib.Run) int {
 	vlib.Parallel(len(scs), 8, func(si int) {
 		c15Scenario1(r, scs[si], maxPoints)
 	})
+	var sched sync.WaitGroup
+	sched.Add(1)
+	go func() { defer sched.Done(); c15Scheduled(r) }()
 	c15Overlap(r)
 	c15NonCumulative(r)
 	c15AppendComplete(r)
+	sched.Wait()
 	return 10
+}
+
+// c15Scheduled: the outfile of a scheduled job of the server (the scheduler treats the existence of the outfile as
+// "job done", so a torn file would be permanent). The job is made to last longer than the scheduler's period of one
+// minute (its first read is held for 70 s at the hook point fs.positioned, result rows are written 20 ms apart), and
+// a watcher re-reads the outfile all the time: absent or complete, whatever the scheduler does meanwhile.
+func c15Scheduled(r *vlib.Run) {
+	rows := 150
+	name := "c15sched"
+	srvDir := r.Dir("srv-" + name)
+	data := filepath.Join(srvDir, "job.log")
+	os.WriteFile(data, []byte(strings.Join(c15Input(rows, 0), "\n")+"\n"), 0644)
+	out := filepath.Join(srvDir, "job-result.csv")
+	header, newSet := c15Expected(rows, 0)
+	spec := &vlib.ServerSpec{Name: name, Dir: srvDir, LogLevel: "error",
+		Env: []string{"VERIF_POINTS=fs.positioned=sleep(70000)@1;out.row=sleep(20)"},
+		Server: map[string]interface{}{"MaxConnections": 20, "MaxConcurrentCats": 4,
+			"Schedule": []interface{}{map[string]interface{}{"Name": "long-job", "Enable": true, "AllowFrom": []string{"localhost", "127.0.0.1"}, "TimeRange": []int{0, 24},
+				"Files": data, "Query": "from OUT select g,count($line),sum(v) group by g limit 100000 interval 1", "Outfile": out}}}}
+	srv, err := r.StartServer(spec)
+	if err != nil {
+		r.Inconclusive("server-start")
+		return
+	}
+	defer srv.Stop()
+	samples, bad, seen := 0, 0, map[string]bool{}
+	var first string
+	deadline := time.Now().Add(100 * time.Second)
+	complete := time.Time{}
+	for time.Now().Before(deadline) && srv.D.Alive() {
+		content, err := os.ReadFile(out)
+		st, why := c15Classify(content, err == nil, header, nil, newSet)
+		samples++
+		seen[st] = true
+		if st == "bad" {
+			bad++
+			if first == "" {
+				first = fmt.Sprintf("%s (%d bytes, %d NUL bytes)", why, len(content), bytes.Count(content, []byte{0}))
+			}
+		}
+		if st == "new" && complete.IsZero() {
+			complete = time.Now()
+		}
+		if !complete.IsZero() && time.Since(complete) > 12*time.Second {
+			break
+		}
+		time.Sleep(2 * time.Millisecond)
+	}
+	r.Eval("scheduled-job-longer-than-the-scheduler-period")
+	r.Count("scheduled_job_outfile_samples", samples)
+	for st := range seen {
+		r.SetAdd("states_observed", "scheduled/"+st)
+	}
+	switch {
+	case !srv.D.Alive():
+		r.Violation("server-died", map[string]interface{}{"scenario": "scheduled job", "log": vlib.Trunc(string(srv.D.Log()), 2000)})
+	case bad > 0:
+		r.Violation("watcher-saw-half-written-outfile", map[string]interface{}{"scenario": "scheduled job of the server lasting longer than the scheduler's period (70 s hold at fs.positioned)",
+			"samples": samples, "bad_samples": bad, "first": first})
+	case !seen["new"]:
+		r.Inconclusive("scheduled-job-did-not-finish")
+	}
 }
 
 // c15AppendComplete: un-killed append runs, judged completely: onto no file,
